@@ -1189,6 +1189,14 @@ func genAll(c *h.Ctx) {
 			c.Add(fmt.Sprintf("uthrow %s %s %s@%s", via, th.kind, t, hx(th.expr)), "uthrow:"+via)
 		}
 	}
+	// (3h) history: rebind / delete the global name of a native error class, then let the engine raise that class
+	for _, k := range clsKinds {
+		for _, how := range []string{"none", "fn", "nonfn", "del"} {
+			for v := 0; v < len(clsConstructs[k]); v++ {
+				c.Add(fmt.Sprintf("rebind %s %s %d", k, how, v), "rebind:"+how)
+			}
+		}
+	}
 	// (3g) building an engine error's message must not run script: every site x logging / throwing toString+valueOf
 	for site := range sidefxSites {
 		for _, mode := range []string{"log", "throw"} {
